@@ -143,6 +143,16 @@ def roundtrip(x):
 def arrays(case):
   a = make_array(case['dtype'], tuple(case['shape']), case['layout'], case['swapped'], case.get('seed', 0))
   snap = canon(a)
+  if a.size and case.get('layout') == 'C' and not case.get('swapped'):
+    from fedjax.core import serialization as ser
+    blob = ser.msgpack_serialize({'a': a})
+    first = ser.msgpack_deserialize(blob)['a']
+    if isinstance(first, np.ndarray) and first.flags.writeable:
+      first.reshape(-1)[0] = first.reshape(-1)[-1]
+      first[...] = first * 0
+    second = ser.msgpack_deserialize(blob)['a']
+    require(canon(second) == snap, 'a second deserialisation of the same bytes differs after the first result was overwritten in place',
+            np.asarray(a).tolist(), np.asarray(second).tolist())
   for wrap in case.get('wraps', ['dict', 'list', 'top']):
     x = {'dict': {'a': a}, 'list': [a], 'top': a, 'nested': {'p': [{'q': a}, []]}}[wrap]
     y = roundtrip(x)
@@ -173,6 +183,17 @@ def bytes_arrays(case):
       a = np.asfortranarray(a)
     try:
       same_leaf({'ids': a, 'k': [a]}, roundtrip({'ids': a, 'k': [a]}))
+      if n >= 1:
+        # history on the decoder: what one deserialisation returned is the caller's to modify; a later deserialisation of
+        # the SAME bytes (and equal leaves inside one value) must not see that
+        from fedjax.core import serialization as ser
+        blob = ser.msgpack_serialize({'ids': a, 'k': [a]})
+        first = ser.msgpack_deserialize(blob)
+        require(first['ids'] is not first['k'][0], 'two equal leaves of one value come back as ONE array object', case=dict(case, elems=list(combo)))
+        for leaf in (first['ids'], first['k'][0]):
+          if leaf.flags.writeable:
+            leaf.reshape(-1)[0] = b'EDITED'
+        same_leaf({'ids': a, 'k': [a]}, ser.msgpack_deserialize(blob), path='second deserialisation after the first result was edited')
     except Violation as v:
       v.case = dict(case, elems=list(combo))
       raise
